@@ -45,6 +45,10 @@ def check(res, rec):
                     pass
                 elif v is not None:
                     why = f"returned {struct.outcome_name(rec.out)} instead of None"
+    if why is None and hasattr(rec.p, "frame_diff"):
+        fd = rec.p.frame_diff()
+        if fd:
+            why = "fields other than the association changed: " + "; ".join(fd[:3])
     res.ob(why is None, sig=sig, sample=sample)
     if why is not None:
         res.violation("MODEL-STEP", rec.qual, rec.icls,
